@@ -224,9 +224,7 @@ class ThermalPropertiesBase:
                 mesh.frequencies[:, bi], dtype="double", order="C"
             )
             if mesh.eigenvectors is not None:
-                self._eigenvectors = np.array(
-                    mesh.eigenvectors[:, :, bi], dtype="double", order="C"
-                )
+                self._eigenvectors = np.array(mesh.eigenvectors[:, :, bi], order="C")
         else:
             self._frequencies = mesh.frequencies
             self._eigenvectors = mesh.eigenvectors
@@ -291,7 +289,7 @@ class ThermalPropertiesBase:
                 )
             return t_property
         else:
-            t_property = np.zeros(len(self._frequencies[0]), dtype="double")
+            t_property = np.zeros(self._eigenvectors.shape[1], dtype="double")
             for freqs, eigvecs2, w in zip(
                 self._frequencies, np.abs(self._eigenvectors) ** 2, self._weights
             ):
